@@ -10,8 +10,8 @@
    symbol and substituting c computes when the coefficient arithmetic is a commutative ring -- sympy's arithmetic, its
    subs and the float conversion are outside the model and are reached by the correspondence run only
    (harness/props/c16.py compares subs(symbol -> c) of the symbolic build with the numeric build and with this model). *)
-From QV.Model Require Import Base Matrix Arith Expr Extrema Sat PCBO Logic Convert PCSO.
-From QV.Proofs Require Import BaseProofs KeyProofs ArithProofs PenaltyArith PCBOProofs HomProofs.
+From QV.Model Require Import Base Matrix Arith Expr Extrema Sat PCBO Logic Convert PCSO Reduce.
+From QV.Proofs Require Import BaseProofs KeyProofs ArithProofs PenaltyArith PCBOProofs HomProofs ReduceProofs ReduceHom.
 Open Scope Q_scope.
 
 Theorem C16_constraint : forall r m Pin l1 l2 lt b r1 r2,
@@ -39,6 +39,15 @@ Theorem C16_affine : forall r m Pin c lt b a w1 t1 mc w2 t2,
   /\ kd mc = kd a /\ anc mc = anc a /\ cons mc = cons a /\ w2 = w1 /\ t2 = t1.
 Proof. exact add_constraint_affine. Qed.
 Print Assumptions C16_affine.
+
+(* the reduced forms (to_qubo / to_pubo and, through the linear conversions, to_quso / to_puso) with a constant penalty c:
+   the result is  Base + c * Pen  where Base and Pen are computed by a run of the reduction that never looks at the
+   penalty (same pair choices, same ancillas) -- so building with a symbol and substituting c gives the numeric build *)
+Theorem C16_reduce_affine : forall m out deg pairs c1 c2 D1 D2,
+  reduce_degree m out deg (LConst c1) pairs = Ok D1 -> reduce_degree m out deg (LConst c2) pairs = Ok D2 -> bmat out ->
+  exists B Pn, forall s, boolean_env s -> eval s (tm D1) == B s + c1 * Pn s /\ eval s (tm D2) == B s + c2 * Pn s.
+Proof. exact reduce_affine. Qed.
+Print Assumptions C16_reduce_affine.
 
 (* non-vacuity: x + y + z - 2 <= 0 with weights 1 and 5/2: same branch, same ancillas *)
 Example C16_example :
